@@ -126,7 +126,7 @@ func returnedClosures(fn *ssa.Function) []*ssa.Function {
 	var out []*ssa.Function
 	core.Instrs(fn, func(i ssa.Instruction) {
 		if r, ok := i.(*ssa.Return); ok {
-			for _, res := range r.Results {
+			for _, res := range res(r) {
 				for _, s := range core.Sources(res) {
 					if mc, ok := s.(*ssa.MakeClosure); ok {
 						out = append(out, mc.Fn.(*ssa.Function))
@@ -245,3 +245,34 @@ func posOf(i ssa.Instruction) token.Pos {
 }
 
 func fname(f *ssa.Function) string { return core.Rel(core.QualName(f)) }
+
+// res returns the result values of a return instruction, looking through the spill that go/ssa inserts in
+// functions with defers (results are stored to result locals, defers run, then the locals are loaded and returned).
+func res(r *ssa.Return) []ssa.Value {
+	out := make([]ssa.Value, len(r.Results))
+	for k, v := range r.Results {
+		out[k] = v
+		u, ok := v.(*ssa.UnOp)
+		if !ok || u.Op != token.MUL {
+			continue
+		}
+		a, ok := u.X.(*ssa.Alloc)
+		if !ok {
+			continue
+		}
+		// last store to a in the block of the return, before the load
+		var last ssa.Value
+		for _, i := range r.Block().Instrs {
+			if i == ssa.Instruction(u) {
+				break
+			}
+			if st, ok := i.(*ssa.Store); ok && st.Addr == ssa.Value(a) {
+				last = st.Val
+			}
+		}
+		if last != nil {
+			out[k] = last
+		}
+	}
+	return out
+}
